@@ -137,7 +137,10 @@ def run_check(P, tier="quick", seed=0, max_search_s=None):
     lint_bad = core.lint()
     ok_build, build_log = core.build()
     pos = [core.proof_obligations(P.pid)] + [core.proof_obligations(x) for x in P.extra_theorem_files]
-    pos += [core.translator_obligation(t) for t in P.translators]
+    if P.translators:
+        from concurrent.futures import ThreadPoolExecutor
+        with ThreadPoolExecutor(max_workers=min(8, len(P.translators))) as ex:
+            pos += list(ex.map(core.translator_obligation, P.translators))
     po = pos[0]
     proof_ok = (not lint_bad) and ok_build and all(x["ok"] for x in pos)
     proof_problem = None
